@@ -22,11 +22,13 @@ theorem forkPoint_liveEdge (s : TM) (p : Point) (t : String) : (forkPoint s p).l
   rw [forkPoint_eq]; rfl
 
 /-- Forking a batch of points: the tables do not move, the sink gets exactly the wanted points, in order. -/
-theorem forkBatch {db rp : String} (t : String) (i : Nat) (pts : List RawPoint) :
+theorem forkBatch {β : Type} (g : TaskDef → Nat → Point → β) {db rp : String} (t : String) (i : Nat) (pts : List RawPoint) :
     ∀ s : TM, Inv s →
       let s' := pts.foldl (fun s r => forkPoint s (mkPoint db rp r)) s
       Inv s' ∧ s'.liveEdge t = s.liveEdge t ∧ s'.defaultRP = s.defaultRP ∧
-      s'.delivered t i = s.delivered t i ++ (pts.filter (wants (s.liveEdge t) i db rp)).map (·.id) := by
+      s'.deliveredWith g t i = s.deliveredWith g t i ++
+        (pts.filter (wants (s.liveEdge t) i db rp)).filterMap
+          (fun r => (s.liveEdge t).map (fun e => g e.task i (mkPoint db rp r))) := by
   induction pts with
   | nil => intro s hi; simp [hi]
   | cons r rest ih =>
@@ -37,7 +39,7 @@ theorem forkBatch {db rp : String} (t : String) (i : Nat) (pts : List RawPoint) 
     refine ⟨h1, ?_, ?_, ?_⟩
     · rw [h2, forkPoint_liveEdge]
     · rw [h3, forkPoint_eq]; rfl
-    · rw [h4, forkPoint_liveEdge, forkPoint_eq, delivered_withEvents, fork_one hi, List.append_assoc]
+    · rw [h4, forkPoint_liveEdge, forkPoint_eq, delivered_withEvents, fork_one g hi, List.append_assoc]
       congr 1
       rw [List.filter_cons]
       unfold wants
@@ -45,8 +47,8 @@ theorem forkBatch {db rp : String} (t : String) (i : Nat) (pts : List RawPoint) 
       | none => simp
       | some e =>
         simp only []
-        have : (mkPoint db rp r).db = db ∧ (mkPoint db rp r).rp = rp ∧ (mkPoint db rp r).id = r.id := ⟨rfl, rfl, rfl⟩
-        rw [this.1, this.2.1, this.2.2]
+        have : (mkPoint db rp r).db = db ∧ (mkPoint db rp r).rp = rp := ⟨rfl, rfl⟩
+        rw [this.1, this.2]
         by_cases hc : (decide ((db, rp) ∈ e.task.dbrps) && sinkGets e.task i (mkPoint db rp r)) = true
         · simp [hc]
         · simp [hc]
@@ -159,7 +161,7 @@ theorem Inv.step {s : TM} (hi : Inv s) (op : Op) : Inv (Kap.C02.step s op) := by
   | delete id => exact hi.stopTask id
   | drain => exact hi.drain
   | write db rp pts =>
-    exact (forkBatch (db := db) (rp := if (rp == "") = true then s.defaultRP else rp) "" 0 pts s hi).1
+    exact (forkBatch (fun _ _ p => p.id) (db := db) (rp := if (rp == "") = true then s.defaultRP else rp) "" 0 pts s hi).1
 
 theorem startTaskFail_liveEdge {s : TM} (hi : Inv s) (d : TaskDef) (t : String) :
     (startTaskFail s d).liveEdge t = s.liveEdge t := by
@@ -184,12 +186,23 @@ theorem startTaskFail_liveEdge {s : TM} (hi : Inv s) (d : TaskDef) (t : String) 
       simp [hi.notLive_keys hl]
     · simp [hid]
 
+/-- How the spec sees the point of a write event through `g`: under the definition the task is enabled with. -/
+def seenAs {β : Type} (g : TaskDef → Nat → Point → β) (i : Nat) (w : WEv) : Option β :=
+  w.enabled.map (fun d => g d i (mkPoint w.db w.rp w.pt))
+
+theorem qualifies_enabled {i : Nat} {w : WEv} (h : qualifies i w = true) : ∃ d, w.enabled = some d := by
+  unfold qualifies at h
+  cases he : w.enabled with
+  | none => simp [he] at h
+  | some d => exact ⟨d, rfl⟩
+
 /-- **Simulation.** From any state satisfying the invariant, running ANY continuation appends to the sink under from-node #`i` of
 task `t` exactly what the history spec prescribes. -/
-theorem sim (drp t : String) (i : Nat) (ops : List Op) :
+theorem sim {β : Type} (g : TaskDef → Nat → Point → β) (drp t : String) (i : Nat) (ops : List Op) :
     ∀ (s : TM), Inv s → s.defaultRP = drp →
-      (ops.foldl step s).delivered t i =
-        s.delivered t i ++ ((writeEvents drp t ((s.liveEdge t).map (·.task)) ops).filter (qualifies i)).map (·.pt.id) := by
+      (ops.foldl step s).deliveredWith g t i =
+        s.deliveredWith g t i ++ ((writeEvents drp t ((s.liveEdge t).map (·.task)) ops).filter (qualifies i)).filterMap
+          (seenAs g i) := by
   induction ops with
   | nil => intro s _ _; simp [writeEvents]
   | cons op rest ih =>
@@ -200,8 +213,8 @@ theorem sim (drp t : String) (i : Nat) (ops : List Op) :
     | start d =>
       simp only [step, stepWith] at hi' ⊢
       rw [ih _ hi' ((startTask_defaultRP s d).trans hrp)]
-      have hdel : (startTask s d).delivered t i = s.delivered t i := by
-        simp [delivered_eq, startTask_log]
+      have hdel : (startTask s d).deliveredWith g t i = s.deliveredWith g t i := by
+        simp [delivered_eq g, startTask_log]
       rw [hdel]
       congr 3
       simp only [writeEvents, enabledAfter]
@@ -244,15 +257,15 @@ theorem sim (drp t : String) (i : Nat) (ops : List Op) :
     | startfail d =>
       simp only [step, stepWith] at hi' ⊢
       rw [ih _ hi' ((startTaskFail_defaultRP s d).trans hrp)]
-      have hdel : (startTaskFail s d).delivered t i = s.delivered t i := by
-        simp [delivered_eq, startTaskFail_log]
+      have hdel : (startTaskFail s d).deliveredWith g t i = s.deliveredWith g t i := by
+        simp [delivered_eq g, startTaskFail_log]
       rw [hdel, startTaskFail_liveEdge hi]
       simp only [writeEvents, enabledAfter]
     | stop id =>
       simp only [step, stepWith] at hi' ⊢
       rw [ih _ hi' ((stopTask_defaultRP s id).trans hrp)]
-      have hdel : (stopTask s id).delivered t i = s.delivered t i := by
-        simp [delivered_eq, stopTask_log]
+      have hdel : (stopTask s id).deliveredWith g t i = s.deliveredWith g t i := by
+        simp [delivered_eq g, stopTask_log]
       rw [hdel, stopTask_liveEdge]
       simp only [writeEvents, enabledAfter]
       by_cases hid : id = t
@@ -262,8 +275,8 @@ theorem sim (drp t : String) (i : Nat) (ops : List Op) :
     | delete id =>
       simp only [step, stepWith] at hi' ⊢
       rw [ih _ hi' ((stopTask_defaultRP s id).trans hrp)]
-      have hdel : (stopTask s id).delivered t i = s.delivered t i := by
-        simp [delivered_eq, stopTask_log]
+      have hdel : (stopTask s id).deliveredWith g t i = s.deliveredWith g t i := by
+        simp [delivered_eq g, stopTask_log]
       rw [hdel, stopTask_liveEdge]
       simp only [writeEvents, enabledAfter]
       by_cases hid : id = t
@@ -274,20 +287,20 @@ theorem sim (drp t : String) (i : Nat) (ops : List Op) :
       simp only [step, stepWith] at hi' ⊢
       have hf := foldl_delFork_fields s.everForked s
       rw [ih _ hi' (hf.2.2.1.trans hrp)]
-      have hdel : (drain s).delivered t i = s.delivered t i := by
-        simp [delivered_eq, drain, hf.2.1]
+      have hdel : (drain s).deliveredWith g t i = s.deliveredWith g t i := by
+        simp [delivered_eq g, drain, hf.2.1]
       have hle : (drain s).liveEdge t = none := by
         simp [TM.liveEdge, TM.isLive, drain_keysOf hi]
       rw [hdel, hle]
       simp only [writeEvents, enabledAfter, Option.map_none]
     | write db rp pts =>
       simp only [step, stepWith, writePointsWith] at hi' ⊢
-      obtain ⟨h1, h2, h3, h4⟩ := forkBatch (db := db) (rp := if (rp == "") = true then s.defaultRP else rp) t i pts s hi
+      obtain ⟨h1, h2, h3, h4⟩ := forkBatch g (db := db) (rp := if (rp == "") = true then s.defaultRP else rp) t i pts s hi
       rw [ih _ h1 (h3.trans hrp), h4, h2, List.append_assoc]
       congr 1
-      simp only [writeEvents, List.filter_append, List.map_append]
+      simp only [writeEvents, List.filter_append, List.filterMap_append]
       congr 1
-      rw [List.filter_map, List.map_map]
+      rw [List.filter_map, List.filterMap_map]
       have hrp' : (if (rp == "") = true then s.defaultRP else rp) = writtenRP drp rp := by
         unfold writtenRP; rw [hrp]; by_cases h : rp = "" <;> simp [h]
       rw [hrp']
@@ -296,8 +309,9 @@ theorem sim (drp t : String) (i : Nat) (ops : List Op) :
         funext r
         simp only [Function.comp, wants_eq_qualifies]
       rw [hf]
-      apply List.map_congr_left
-      intro r _
+      congr 1
+      funext r
+      simp only [Function.comp, seenAs, Option.map_map]
       rfl
 
 /-- Every reachable state satisfies the table invariant. -/
@@ -306,11 +320,26 @@ theorem inv_fold (ops : List Op) : ∀ (s : TM), Inv s → Inv (ops.foldl step s
   | nil => intro s hi; exact hi
   | cons op rest ih => intro s hi; exact ih _ (hi.step op)
 
+/-- The model refines the history spec, whatever is looked at of the recorded points. -/
+theorem run_deliveredWith_eq_spec {β : Type} (g : TaskDef → Nat → Point → β) (drp : String) (ops : List Op) (t : String) (i : Nat) :
+    (run drp ops).deliveredWith g t i = ((writeEvents drp t none ops).filter (qualifies i)).filterMap (seenAs g i) := by
+  have := sim g drp t i ops (init drp) (Inv.init drp) rfl
+  simpa [run, init, TM.deliveredWith, TM.liveEdge, TM.isLive] using this
+
 /-- The model refines the history spec (used by `Kap.Props.C02.route_refines_spec`). -/
 theorem run_delivered_eq_spec (drp : String) (ops : List Op) (t : String) (i : Nat) :
     (run drp ops).delivered t i = specDelivered drp t i ops := by
-  have := sim drp t i ops (init drp) (Inv.init drp) rfl
-  simpa [run, specDelivered, init, TM.delivered, TM.liveEdge, TM.isLive] using this
+  unfold TM.delivered specDelivered
+  rw [run_deliveredWith_eq_spec]
+  generalize (writeEvents drp t none ops) = l
+  induction l with
+  | nil => rfl
+  | cons w rest ih =>
+    rw [List.filter_cons]
+    by_cases hq : qualifies i w = true
+    · obtain ⟨d, hd⟩ := qualifies_enabled hq
+      simp [hq, seenAs, hd, mkPoint, ih]
+    · simp [hq, ih]
 
 theorem run_inv (drp : String) (ops : List Op) : Inv (run drp ops) :=
   inv_fold ops (init drp) (Inv.init drp)
